@@ -368,7 +368,13 @@ static void copy_lvalue_range (svalue_t * from) {
           {
             dptr = (owner->u.arr)->item + ind1;
 
-            if (fv->ref == 1)
+            if (dptr == fptr)
+              {
+                /* a[0..<1] = a: nothing to copy, and assigning an element
+                 * to itself would release it first */
+                fv->ref--;
+              }
+            else if (fv->ref == 1)
               {
                 /* Transfer the svalues */
                 while (fsize--)
@@ -522,8 +528,9 @@ static void assign_lvalue_range (svalue_t * from) {
         if ((fsize = fv->size) == ind2 - ind1)
           {
             dptr = (owner->u.arr)->item + ind1;
-            while (fsize--)
-              assign_svalue (dptr++, fptr++);
+            if (dptr != fptr)	/* not a[0..<1] = a, see copy_lvalue_range() */
+              while (fsize--)
+                assign_svalue (dptr++, fptr++);
           }
         else
           {
